@@ -33,6 +33,11 @@ def arm_pattern(okey):
     """the static part of an owner-normalised key: up to the first dynamic payload marker (':' '@' '|'), closure numbers generalised"""
     import re
     k = okey
+    if "/site/" in k and k.count("|") >= 3:
+        # K8 may-panic sites `fn|kind|what|operands`: the instance is the kind of site in that function (an unwrap, a division, a call of X),
+        # not the function as a whole — a variant that confirms `f|extern|withdraw|` says nothing about `f|unwrap|unwrap|`
+        parts = k.split("|")
+        return re.sub(r"(::|/)c\d+(?![A-Za-z0-9_])", r"\1c#", "|".join(parts[:3]) + "|")
     for i, ch in enumerate(k):
         if ch in ":@|" and not k[i:i + 2] == "::":
             if ch == ":" and i > 0 and k[i - 1] == ":":
